@@ -67,10 +67,14 @@ pub fn emit_parse(out: &mut Out, cfg: &Cfg, entry: &str, s: &str, canonical: Opt
                 if dump(&p) != dump(want) { return Err(format!("canonical text `{}` parses to a different value than the one it denotes (query ids aside)", s)); }
                 let printed = show(&p).ok_or("printing panicked")?;
                 let expect_print = if entry == "rule" || entry == "query" { s.to_string() } else { s.to_string() };
-                if entry != "query" && printed != expect_print { return Err(format!("`{}` prints back as `{}`", s, printed)); }
+                // a quoted atom is printed without its quotes: the printed text is then not the canonical one, and must still denote the same value
+                let quoted = s.contains('"');
+                if entry != "query" && !quoted && printed != expect_print { return Err(format!("`{}` prints back as `{}`", s, printed)); }
                 if entry != "query" {
                     let p2 = run_entry(entry, &printed);
-                    if dump(&p2) != dump(&p) { return Err(format!("printed text `{}` parses to a different value", printed)); }
+                    if dump(&p2) != dump(&p) {
+                        if quoted { return Err(format!("atom that needs its quotes: `{}` is printed as `{}`, which parses to a different value (or not at all)", s, printed)); }
+                        return Err(format!("printed text `{}` parses to a different value", printed)); }
                 }
                 Ok(())
             })();
@@ -92,7 +96,14 @@ impl<'a> Gen<'a> {
     /// (canonical text, value)
     pub fn term(&mut self, d: usize) -> (String, Unifiable) {
         let k = self.r.below(if d >= self.depth { 60 } else { 100 });
-        if k < 18 { let a = *self.r.pick(&ATOMS); return (a.to_string(), atom!(a)); }
+        if k < 16 { let a = *self.r.pick(&ATOMS); return (a.to_string(), atom!(a)); }
+        // an atom written between double quotes: with text that needs them, and with text that does not
+        // (separators and brackets between the quotes only where the quotes are at most one level deep: deeper down the scanners
+        //  do not look at quotes, known finding F4)
+        if k < 18 {
+            let a = if d <= 1 { *self.r.pick(&["a, b", "12", "$X", "x(y", "[a]", "a | b", "1.5", "$_", "Hello World", "abc", "a; b", "smile :)"]) }
+                    else { *self.r.pick(&["12", "$X", "1.5", "$_", "Hello World", "abc"]) };
+            return (format!("\"{}\"", a), atom!(a)); }
         if k < 28 { let i = *self.r.pick(&[0i64, 1, 7, 42, -3, -15, 123456789]); return (i.to_string(), SInteger(i)); }
         if k < 36 { let f = *self.r.pick(&[2.5f64, 0.5, 100.25, -0.75, 3.125, 0.0000012, 0.00001, -0.000001, 0.00000015, 123456789012.5, 4503599627370495.5, 0.1, 1234.5678]); return (f.to_string(), SFloat(f)); }
         if k < 54 { let v = *self.r.pick(&VARS); return (v.to_string(), logic_var!(v)); }
@@ -255,7 +266,7 @@ pub fn run_spellings(out: &mut Out, cfg: &Cfg, seed: u64, n: usize) {
                 let mut g = Gen{r: &mut r, depth: 2};
                 let (t, val) = loop { let x = g.term(0); if let Unifiable::SComplex(_) = x.1 { break x; } };
                 let spaced = t.replace(", ", " ,   ").replace("(", "(  ").replace(")", " )");
-                if !spaced.contains("[  ") && !t.contains("()") && !t.contains(" | ") { emit_spelling(out, cfg, "complex", &format!("  {}  ", spaced), Parsed::Term(val)); }
+                if !spaced.contains("[  ") && !t.contains("()") && !t.contains(" | ") && !t.contains('"') { emit_spelling(out, cfg, "complex", &format!("  {}  ", spaced), Parsed::Term(val)); }
             },
             6 => {
                 // infix comparison / arithmetic
@@ -443,11 +454,11 @@ fn emit_context(out: &mut Out, cfg: &Cfg, text: &str) {
                 while i < cs.len() {
                     let c = cs[i];
                     if oq { if c == '"' { oq = false; } else if c == '\\' && i + 1 < cs.len() && cs[i + 1] == '"' { nested = true; } }
+                    else if c == '"' { oq = true; }      // (since repair D23 paired quotes protect brackets at every depth)
                     else if c == '[' { q += 1; } else if c == ']' { q -= 1; } else if c == '(' { r += 1; } else if c == ')' { r -= 1; }
                     else if r == 0 && q == 0 {
-                        if c == '"' { oq = true; }
-                        else if c == '\\' { if i + 1 < cs.len() { i += 1; } else { ok = false; } }
-                    } else if c == '"' || c == '\\' { nested = true; }
+                        if c == '\\' { if i + 1 < cs.len() { i += 1; } else { ok = false; } }
+                    } else if c == '\\' { nested = true; }
                     if c == '\\' && i > 0 && cs[i - 1] == '\\' { nested = true; }   // an escaped backslash
                     if r < 0 || q < 0 { ok = false; }
                     i += 1;
@@ -467,7 +478,7 @@ fn emit_context(out: &mut Out, cfg: &Cfg, text: &str) {
                 let all_same = res.iter().all(|x| *x == res[0]);
                 let names = ["alone", "as argument", "as list element", "as infix operand", "as query argument", "as an argument after a float", "as an argument among other arguments", "as a list element after a float"];
                 let k = res.iter().position(|x| *x != res[0]).unwrap_or(0);
-                let what = if nested_special { "text with a quotation mark or a backslash inside its parentheses, brackets or quotes: " } else if escape_inside { "text with a backslash escape inside it: " } else { "" };
+                let what = if nested_special { "text with a backslash inside its parentheses, brackets or quotes: " } else if escape_inside { "text with a backslash escape inside it: " } else { "" };
                 out.oracle(id, "C20", all_same, &format!("{}`{}` {} is {} but {} it is {}", what, text, names[0], crate::tools_pretty(&res[0]), names[k], crate::tools_pretty(&res[k])));
             }
         }
